@@ -99,8 +99,7 @@ theorem step_oracle_raw (s : Sys) (op : Op) (r : Raw) (hd : s.dev = .raw r) : (s
           have := fileWriteLoop_oracle s.os r.fid r.offset (packetBytes fs) 0
           cases hw : fileWrite s.os r.fid r.offset (packetBytes fs) with
           | mk os1 ok =>
-            unfold fileWrite at hw
-            rw [hw] at this
+            rw [← fileWrite_oracle_eq, hw] at this
             cases ok with
             | true => exact this
             | false => exact (rawStop_oracle os1 r).trans this
@@ -215,8 +214,7 @@ theorem append_benign (s : Sys) (p : Path) (acc : Bytes) (fs : List Frame) (h : 
       have hok := fileWriteLoop_benign s.os r.fid r.offset (packetBytes fs) hb ⟨p, hlk⟩
       cases hw : fileWrite s.os r.fid r.offset (packetBytes fs) with
       | mk os1 ok =>
-        unfold fileWrite at hw
-        rw [hw] at hok
+        rw [← fileWrite_snd, hw] at hok
         simp only at hok
         subst hok
         rw [show fileWrite s.os r.fid r.offset (packetBytes fs) = (os1, true) from hw] at hd1
